@@ -554,6 +554,21 @@ theorem rep_index_describes_chunks (chunks : List (List (Ent α))) (hne : ∀ x 
   rw [hfirst] at this
   exact this
 
+/-- `norep_special_case`: a page without repetition levels (every level starts a row) needs no stored index —
+    `MiniBlockRepIndex::default_from_chunks` is what decoding the stored index would give -/
+theorem norep_special_case (chunks : List (List (Ent α))) (hne : ∀ x ∈ chunks, x ≠ [])
+    (hall : ∀ x ∈ chunks, ∀ e ∈ x, e.start = true) :
+    decodeRepIndex (buildRepIndex chunks) false 0 = defaultRepIndex (chunks.map List.length) 0 := by
+  rw [rep_index_describes_chunks chunks hne, blocksSpec_allStart chunks hne hall]
+  cases chunks with
+  | nil => rfl
+  | cons c t =>
+    cases hc : c with
+    | nil => exact absurd hc (hne c (by simp))
+    | cons e u =>
+      have := hall c (by simp) e (by simp [hc])
+      simp [headStarts, this]
+
 /-- the chunk `.. 7 | [1, _] [] [2, 3]` (a one-level preamble, then three rows; `_` and `[]` are invisible levels) -/
 def exPre : List (Ent Nat) := [⟨false, true, 7⟩]
 def exRows : List (List (Ent Nat)) :=
